@@ -166,6 +166,11 @@ Theorem C14_apply_mask_footprint_inside :
   exists d' n', imaging_apply_mask zero data noise m (Some k) = Ok (d', n') /\ footprint_inside (snd d') k = true.
 Proof. exact @apply_mask_footprint_inside. Qed.
 
+(* the padding happens exactly when some unmasked pixel's blurring footprint (odd PSF) leaves the frame *)
+Theorem C14_padding_iff_footprint_leaves_frame : forall (m : list (list bool)) H W k,
+  rectb H W m = true -> 0 < H -> odd_kernel k = true -> blurring_raises m k = negb (footprint_inside m k).
+Proof. exact blurring_raises_iff. Qed.
+
 (* when apply_mask padded, AbstractDataset.trimmed_after_convolution_from for the same kernel gives back the masked data
    and noise map on the original mask *)
 Theorem C14_apply_mask_then_trim_id :
@@ -280,6 +285,7 @@ Print Assumptions C14_parity_hypothesis_needed.
 Print Assumptions C14_auto_padding_keeps_triples.
 Print Assumptions C14_apply_mask_footprint_inside.
 Print Assumptions C14_psf_padding_keeps_coordinates.
+Print Assumptions C14_padding_iff_footprint_leaves_frame.
 Print Assumptions C14_apply_mask_then_trim_id.
 Print Assumptions C14_extract_is_window.
 Print Assumptions C14_zoom_region_contains_unmasked.
